@@ -151,6 +151,9 @@ func (c *XAConn) BeginTx(ctx context.Context, opts driver.TxOptions) (driver.Tx,
 		c.keepIfNecessary()
 
 		if err = c.start(ctx); err != nil {
+			// no branch exists in the database: the connection must not stay registered for a phase
+			// two that would address an xid which was never started
+			c.releaseIfNecessary()
 			c.cleanXABranchContext()
 			return nil, fmt.Errorf("failed to start xa branch xid:%s err:%w", c.txCtx.XID, err)
 		}
